@@ -174,33 +174,36 @@ Definition in_storage (ks : list id) (c : cache) (i : id) : bool := has i c || m
 
 (* PulseStorage.overwrite for the object n, nested inside a running transaction: encode (which visits the
    children through JSONSerializableEncoder.default, in document order), then buffer the own entry.           *)
-Fixpoint collect (ks : list id) (c : cache) (n : tmpl) (tx : txbuf) : res txbuf :=
+(* JSONSerializableEncoder.default on the children, in document order; `rec` = the nested overwrite() *)
+Definition walk_kids (rec : tmpl -> txbuf -> res txbuf) (ks : list id) (c : cache)
+  : list tmpl -> txbuf -> res txbuf :=
+  fix go (l : list tmpl) (tx : txbuf) {struct l} : res txbuf :=
+  match l with
+  | [] => Ok tx
+  | k :: r =>
+      match k with
+      | Bad => Err EUnser
+      | Node ci ctg _ _ =>
+          if negb (in_storage ks c ci) then
+            (* self.storage[o.identifier] = o  ->  __setitem__ (both checks pass) -> overwrite *)
+            match rec k tx with
+            | Ok tx' => go r tx'
+            | Err e => Err e
+            end
+          else
+            (* `o is not self.storage[o.identifier]`; an object loaded from the backend is a new one *)
+            match lookup ci c with
+            | Some t => if t =? ctg then go r tx else Err EClash
+            | None => Err EClash
+            end
+      end
+  end.
+
+Fixpoint collect (ks : list id) (c : cache) (n : tmpl) (tx : txbuf) {struct n} : res txbuf :=
   match n with
   | Bad => Err EUnser
   | Node i tg p kids =>
-      match
-        (fix walk (l : list tmpl) (tx : txbuf) : res txbuf :=
-           match l with
-           | [] => Ok tx
-           | k :: r =>
-               match k with
-               | Bad => Err EUnser
-               | Node ci ctg _ _ =>
-                   if negb (in_storage ks c ci) then
-                     (* self.storage[o.identifier] = o  ->  __setitem__ (both checks pass) -> overwrite *)
-                     match collect ks c k tx with
-                     | Ok tx' => walk r tx'
-                     | Err e => Err e
-                     end
-                   else
-                     (* `o is not self.storage[o.identifier]`; an object loaded from the backend is a new one *)
-                     match lookup ci c with
-                     | Some t => if t =? ctg then walk r tx else Err EClash
-                     | None => Err EClash
-                     end
-               end
-           end) kids tx
-      with
+      match walk_kids (collect ks c) ks c kids tx with
       | Ok tx' => Ok (aset i (tg, doc_of n) tx')
       | Err e => Err e
       end
@@ -321,3 +324,23 @@ Definition consistentb (n : tmpl) : bool :=
 (* the operation does not delete an entry something else refers to (quantifier of the property) *)
 Definition referenced (i : id) (s : store) : bool :=
   existsb (fun e => match snd e with Full _ refs => memb i refs | Partial => false end) s.
+
+(* guard_C11_cycle (known finding overwrite-creates-cycle): no identifier written by the transaction is reachable,
+   in the storage as it was, from an identifier the new documents refer to without writing it *)
+Fixpoint reachb (fuel : nat) (s : store) (from target : id) : bool :=
+  (from =? target) ||
+  match fuel with
+  | O => false
+  | S f => match lookup from s with
+           | Some (Full _ refs) => existsb (fun r => reachb f s r target) refs
+           | _ => false
+           end
+  end.
+
+Definition no_back_refb (s : store) (tx : list (id * doc)) : bool :=
+  forallb (fun e => match snd e with
+                    | Full _ refs =>
+                        forallb (fun r => memb r (keys tx)
+                                          || forallb (fun w => negb (reachb (length s) s r w)) (keys tx)) refs
+                    | Partial => true
+                    end) tx.
